@@ -1006,3 +1006,4 @@ pub fn tier_params(thorough: bool) -> TierParams {
 // child modules come last so that the macros above are in scope for them
 pub mod registry;
 pub mod scan;
+pub mod selftest;
